@@ -41,7 +41,8 @@ ClassOfCode(v) == IF v = NoneCode THEN "nothing" ELSE IF v = ExcCode THEN "excep
 OutcomeMathWide(r) ==
   IF ~WideDemanded(r) THEN {"value", "nothing"}
   ELSE IF r.f \in WideOptFns /\ WideExpectNone(r) THEN {"nothing"} ELSE {"value"}
-ClassOfWide(r) == IF r.ex = 1 THEN "exception" ELSE IF r.r = <<>> THEN "nothing" ELSE "value"
+ClassOfWide(r) == IF r.ex = 1 THEN "exception" ELSE IF r.f \in WideBoolFns THEN "value"
+                  ELSE IF r.r = <<>> THEN "nothing" ELSE "value"
 
 \* ------------------------------------------------------------------ sequences of code points
 IsSpace(c) == c \in {32, 9, 10, 11, 12, 13}
